@@ -25,7 +25,7 @@ EPS = 1e-9
 
 
 def strategy(tier):
-    return st.tuples(pc.graph_strategy(classes=('DynGraph',), tier=tier), st.lists(st.integers(0, 2), min_size=8, max_size=8),
+    return st.tuples(pc.graph_strategy(classes=('DynGraph',), tier=tier, uni=(4, 6), max_ops=14), st.lists(st.integers(0, 2), min_size=8, max_size=8),
                      st.lists(st.integers(0, 2), min_size=8, max_size=8), st.integers(1, 2), st.integers(1, 2),
                      st.lists(st.sampled_from([0.5, 1, 2.5]), min_size=1, max_size=2, unique=True), st.sampled_from(PATH_TYPES),
                      st.integers(0, 9), st.sampled_from(['id', 'id', 'id', 'off', 'before']), st.integers(0, 5), st.integers(0, 5)).map(
@@ -195,6 +195,30 @@ def run_case(case, rec):
                         for n in got[a][p]) for a in got for p in got[a])
                 rec.check('C20.sliding', same, lambda: '%s = %r, expected %r' % (sctx, got, exp))
                 rec.classify('sliding windows: %d' % min(5, sum(1 for t in ids if t + delta < ids[-1])))
+    # ---- the answer depends on the graph state only: the already-queried object is extended inside the
+    # window and asked the same question again; a graph built in one go with the same history must agree
+    known = [n for n in d.nodes if n in M.nodes]
+    if res is not None and len(known) >= 2 and case['perm'] % 2 == 0:
+        extra = []
+        for j in range(2):
+            a = known[(case['perm'] + j) % len(known)]
+            b = known[(case['perm'] + j + 1 + case['si']) % len(known)]
+            if a != b:
+                extra.append(['add', d.nodes.index(a), d.nodes.index(b), start + (case['si'] + j) % (delta + 1), None])
+        case2 = dict(case, ops=list(case['ops']) + extra)
+        built2 = build(case2)
+        if extra and built2 is not None:
+            applied = True
+            for op in extra:
+                if call_real(G, d.nodes, op) is not None:
+                    applied = False       # rejected by the ordering rule on the live object: nothing to compare
+                    break
+            if applied:
+                ok1, again = safe(al.delta_conformity, G, start, delta, alphas, labels, **kw)
+                ok2, fresh = safe(al.delta_conformity, built2[0].G, start, delta, alphas, labels, **kw)
+                rec.check('C20.state_only', ok1 and ok2 and close_scores(again, fresh),
+                          lambda: '%s after adding %r to the queried graph: %r, a graph built in one go gives %r' % (ctx, extra, again, fresh))
+                rec.classify('re-queried after extending the window')
     for c in d.classes:
         rec.classify(c)
     rec.classify('path_type:' + case['ptype'])
